@@ -30,6 +30,13 @@ def _rand_tableau(rnd, N):
     return gs, ps
 
 
+def _anti_pair(rnd, N):
+    while True:
+        a, b = _rand_bits(rnd, 2 * N), _rand_bits(rnd, 2 * N)
+        if sum(a[2 * k + 1] * b[2 * k] - a[2 * k] * b[2 * k + 1] for k in range(N)) % 2:
+            return (a, b)
+
+
 def _gens(rnd):
     N = rnd.randint(1, 3)
     L = rnd.randint(1, 3)
@@ -58,6 +65,7 @@ def _gens(rnd):
         'clifford_rotate_signless': lambda: (g(), gs()),
         'pauli_is_onsite': lambda: (g(), rnd.randint(0, N - 1)),
         'pauli_diagonalize1': lambda: (g(), rnd.randint(0, N - 1)),
+        'pauli_diagonalize2': lambda: _anti_pair(rnd, N) + (rnd.randint(0, N - 1),),
         'map_to_state': lambda: (_rand_bits(rnd, (2 * N, 2 * N)), herm(2 * N)),
         'state_to_map': lambda: (_rand_bits(rnd, (2 * N, 2 * N)), herm(2 * N)),
         'stabilizer_project': lambda: (tab()[0], gs(), r),
